@@ -7,7 +7,7 @@ import gen
 
 HEADER = '''From Coq Require Import ZArith List Bool PrimFloat.
 Import ListNotations.
-From PM Require Import Base.Num Base.FNum Base.Cplx Model.Topology Corr.TopoDriver.
+From PM Require Import Base.Num Base.FNum Base.Cplx Gen.Extracted Model.Topology Corr.TopoDriver.
 Set Printing Depth 10000000.
 Set Printing Width 200.
 Local Notation SG := (@mkSeg FNum).
@@ -19,8 +19,9 @@ def B(b): return 'true' if b else 'false'
 def v3(l): return '(%s, %s, %s)' % tuple(F(x) for x in l)
 
 def ground_flags(o, g):
-    """which ends of an object are on the ground plane, decided HERE from the end coordinates (|z| below the matching
-    tolerance when there is a ground), not read off the real object"""
+    """which ends of an object are on the ground plane, decided from the end coordinates (|z| below the matching tolerance when
+    there is a ground), not read off the real object; the model itself evaluates the predicate EXTRACTED from
+    Geobj.compute_ground (translator item X16, see coq_objs), this Python copy serves the oracles"""
     if not o['ground']:
         return [False, False]
     tol = float.fromhex(o['tol'])
@@ -30,8 +31,11 @@ def coq_objs(o):
     objs = []
     for g in o['geos']:
         segs = coq_list(['SG %s %s %s %s' % (v3(s['p1']), v3(s['p2']), F(s['len']), v3(s['dir'])) for s in g['segs']])
-        gf = ground_flags(o, g)
-        objs.append('OB %s %s %s (%s, %s)' % (segs, v3(g['p1']), v3(g['p2']), B(gf[0]), B(gf[1])))
+        if o['ground']:
+            flags = '(@gnd_flags FNum %s %s %s)' % (F(g['p1'][2]), F(g['p2'][2]), F(o['tol']))      # extracted predicate
+        else:
+            flags = '(false, false)'
+        objs.append('OB %s %s %s %s' % (segs, v3(g['p1']), v3(g['p2']), flags))
     return coq_list(objs)
 
 _ctr = [0]
@@ -292,7 +296,7 @@ def run_addr(chk, rng, ncases, grounds=(None, None, 'ideal')):
     return good, errs
 
 # ------------------------------------------------------------------ zmat
-ZHEADER = HEADER.replace('Model.Topology Corr.TopoDriver', 'Gen.Extracted Model.Topology Model.Kernel Model.ZMatrix Corr.TopoDriver Corr.ZDriver')
+ZHEADER = HEADER.replace('Model.Topology Corr.TopoDriver', 'Model.Topology Model.Kernel Model.ZMatrix Corr.TopoDriver Corr.ZDriver')
 
 def run_zmat(chk, rng, ncases, grounds=(None, None, 'ideal'), cases=None, tol=1e-9, maxp=26):
     import gen as _g
